@@ -41,6 +41,7 @@ class Cfg(object):
         self.ok_w = 14           # weight of "ok" among item outcomes (err and unset weigh 1 each)
         self.fault_leaf_w = 1    # weight of each failing non-item leaf kind among plain leaves (items weigh 6)
         self.empty_structs = True
+        self.excval = False      # futures whose value is an exception instance (must be delivered, not raised)
         self.itemvalue = False   # statements that call item.value() directly inside a body (out-of-band flush of the item's batch)
         self.cancels = False     # statements that cancel the pending batch of a kind (a client discarding its batch)
         self.reyield = False     # a later statement yields the very same object an earlier yield statement yielded
@@ -116,6 +117,8 @@ def plain_leaf(s):
     if cfg.batch_free:
         return item(s)
     opts = ["item"] * 6 + ["const", "none", "nonef", "lazyok"]
+    if cfg.excval:
+        opts += ["excval"]
     if cfg.ditem:
         opts += ["ditem"] * 2
     if cfg.shared_lazy:
@@ -137,6 +140,8 @@ def plain_leaf(s):
         return None
     if k == "nonef":
         return ["nonef"]
+    if k == "excval":
+        return ["excval", s.int(0, 3)]
     if k == "lazyok":
         return ["lazy", "ok", s.uid()]
     if k == "tool":
